@@ -124,8 +124,7 @@ Qed.
 
 (* ================= one step keeps the invariant ================= *)
 Lemma quiet_parts : forall ev s o, c21_quiet ev s o = true ->
-  c21_op_ok ev s o = true /\ trig_rename_linked s o = false /\ trig_overwrite_linked s o = false /\
-  trig_rec_nodata ev s o = false /\
+  c21_op_ok ev s o = true /\ trig_rename_linked s o = false /\
   match o with
   | Rename oldp _ => match nfind s oldp with Some e => negb (h_dir e) | None => true end
   | _ => true
@@ -136,15 +135,15 @@ Proof.
 Qed.
 
 Lemma move_self_inv : forall ev s oldp e newp, Inv s -> oldp <> [] -> newp <> [] ->
-  h_hl e = 0%N -> (forall ex, nfind s newp = Some ex -> h_hl ex = 0%N) ->
+  h_hl e = 0%N ->
   Inv (st_of (move_self ev s oldp e newp)).
 Proof.
-  intros ev s oldp e newp I Ho Hn He Hnew. unfold move_self.
+  intros ev s oldp e newp I Ho Hn He. unfold move_self.
   destruct (HardLink.path_eqb oldp newp); [exact I|].
-  pose proof (filer_create_plain_inv [] ev s newp (strip_link e) false I Hn eq_refl Hnew) as I1.
+  pose proof (filer_create_plain_inv' [] ev s newp (strip_link e) false I Hn eq_refl) as I1.
   destruct (filer_create ev s newp (strip_link e) false) as [[s1 r1] d1]. unfold st_of in I1. simpl in I1.
   destruct r1; try exact I1.
-  pose proof (delete_entry_inv ev s1 oldp false false false I1 Ho (or_intror (or_introl eq_refl))) as I2.
+  pose proof (delete_entry_inv ev s1 oldp false false false I1 Ho) as I2.
   destruct (delete_entry ev s1 oldp false false false) as [[s2 r2] d2]. exact I2.
 Qed.
 
@@ -356,27 +355,27 @@ Qed.
 
 Theorem step_good : forall ev s o, Inv s -> c21_quiet ev s o = true -> StepGood ev s o.
 Proof.
-  intros ev s o I Hq. destruct (quiet_parts ev s o Hq) as [Hok [T0 [T1 [T2 Hsc]]]].
+  intros ev s o I Hq. destruct (quiet_parts ev s o Hq) as [Hok [T0 Hsc]].
   destruct o as [p e x|p e|p cs|p rec ign data|oldp newp|oldp newp fresh|p cs mt via|p].
   - (* Create *)
-    simpl in Hok, T1. apply N.eqb_eq in Hok. rewrite Hok in T1. simpl in T1.
+    simpl in Hok. apply N.eqb_eq in Hok.
     unfold StepGood. simpl. unfold scoped. destruct (in_scope p) eqn:Esc.
     2:{ unfold st_of, err_of; simpl. split; [exact I|]. split; [now apply links_kept_err|now apply effect_ok_err]. }
     pose proof (in_scope_nonroot p Esc) as Hp.
     split; [|split; [|now apply effect_trivial]].
     + destruct (grpc_create_cases ev s p e x) as [[A _]|[cs [A _]]]; rewrite A; [exact I|].
-      apply filer_create_plain_inv; auto. apply (blob_linked_false s p T1).
+      apply filer_create_plain_inv'; auto.
     + apply links_kept_intro; [apply (ig_nd _ _ I)| |].
       * intros q e0 _ _. simpl. destruct (HardLink.path_eqb p q); auto.
       * intros q e0 H0 Hn0 Hi. simpl in Hi. exists e0. split; [|reflexivity].
         apply (grpc_create_keeps ev s p e x q e0 H0). intro Eq. subst q. rewrite path_eqb_refl in Hi. discriminate.
   - (* Update *)
-    simpl in Hok, T1. apply N.eqb_eq in Hok. rewrite Hok in T1. simpl in T1.
+    simpl in Hok. apply N.eqb_eq in Hok.
     unfold StepGood. simpl. unfold scoped. destruct (in_scope p) eqn:Esc.
     2:{ unfold st_of, err_of; simpl. split; [exact I|]. split; [now apply links_kept_err|now apply effect_ok_err]. }
     split; [|split; [|now apply effect_trivial]].
     + destruct (grpc_update_cases ev s p e); try exact I.
-      apply w_insert_plain_inv; auto. apply (blob_linked_false s p T1).
+      apply w_insert_plain_inv'; auto.
     + apply links_kept_intro; [apply (ig_nd _ _ I)| |].
       * intros q e0 _ _. simpl. destruct (HardLink.path_eqb p q); auto.
       * intros q e0 H0 Hn0 Hi. simpl in Hi. exists e0. split; [|reflexivity].
@@ -410,8 +409,7 @@ Proof.
     pose proof (in_scope_nonroot p Esc) as Hp.
     rewrite grpc_delete_st.
     split; [|split; [|now apply effect_trivial]].
-    + apply delete_entry_inv; auto. destruct data; [now left|]. right. right.
-      intros e Hf Hd. simpl in T2. rewrite Hf, Hd in T2. simpl in T2. now apply collect_ids_nil.
+    + apply delete_entry_inv; auto.
     + apply links_kept_intro; [apply (ig_nd _ _ I)| |].
       * intros q e0 _ _. simpl. destruct (HardLink.is_prefix p q); auto.
       * intros q e0 H0 Hn0 Hi. simpl in Hi. exists e0. split; [|reflexivity].
@@ -427,14 +425,12 @@ Proof.
     rewrite (find_entry_nonroot ev s oldp Ho). unfold w_find.
     destruct (nfind s oldp) as [ex|] eqn:Ex.
     2:{ unfold st_of, err_of; simpl. split; [exact I|]. split; [now apply links_kept_err|now apply effect_ok_err]. }
-    simpl in T0, T1, Hsc. apply negb_true_iff in Hsc.
+    simpl in T0, Hsc. apply negb_true_iff in Hsc.
     apply orb_false_iff in T0. destruct T0 as [T0 _].
     pose proof (blob_linked_false s oldp T0 ex Ex) as Hpl.
     rewrite (view_plain s ex Hpl), Hsc. simpl.
     split; [|split; [|now apply effect_trivial]].
-    + apply move_self_inv; auto. intros ex' H'.
-      destruct (peqb_spec oldp newp) as [E|E]; [congruence|]. simpl in T1.
-      apply orb_false_iff in T1. destruct T1 as [T1 _]. apply (blob_linked_false s newp T1 ex' H').
+    + apply move_self_inv; auto.
     + apply links_kept_intro; [apply (ig_nd _ _ I)| |].
       * intros q e0 H0 Hn0. simpl. destruct (HardLink.path_eqb oldp newp); [auto|].
         destruct (peqb_spec oldp q); [subst q; congruence|]. rewrite Ex, Hsc.
@@ -610,6 +606,123 @@ Proof.
   - intro Hc. apply (ig_pres _ _ I X HX). simpl. rewrite Nat.add_0_r. exact Hc.
 Qed.
 
+(* ================= the link records after ANY history (client assumptions only) =================
+   since the two repairs, every operation keeps the record invariant — also the renames that the
+   trigger excludes above (they detach names, but the counters follow) *)
+Lemma move_self_inv' : forall ev s oldp e newp, Inv s -> oldp <> [] -> newp <> [] ->
+  Inv (st_of (move_self ev s oldp e newp)).
+Proof.
+  intros ev s oldp e newp I Ho Hn. unfold move_self.
+  destruct (HardLink.path_eqb oldp newp); [exact I|].
+  pose proof (filer_create_plain_inv' [] ev s newp (strip_link e) false I Hn eq_refl) as I1.
+  destruct (filer_create ev s newp (strip_link e) false) as [[s1 r1] d1]. unfold st_of in I1. simpl in I1.
+  destruct r1; try exact I1.
+  pose proof (delete_entry_inv ev s1 oldp false false false I1 Ho) as I2.
+  destruct (delete_entry ev s1 oldp false false false) as [[s2 r2] d2]. exact I2.
+Qed.
+
+Lemma child_nonroot : forall d n, HardLink.child d n <> [].
+Proof. intros d n E. apply (f_equal (@List.length _)) in E. unfold HardLink.child, FilerNS.child in E.
+  rewrite app_length in E. simpl in E. lia. Qed.
+
+Lemma move_children_inv : forall ev oldd newd cs s, Inv s ->
+  Inv (st_of (move_children ev s oldd newd cs)).
+Proof.
+  induction cs as [|c cs IH]; intros s I; [exact I|]. simpl.
+  pose proof (move_self_inv' ev s (HardLink.child oldd (fst c)) (snd c) (HardLink.child newd (fst c)) I
+                (child_nonroot _ _) (child_nonroot _ _)) as I1.
+  destruct (move_self ev s (HardLink.child oldd (fst c)) (snd c) (HardLink.child newd (fst c))) as [[s1 r1] d1].
+  unfold st_of in I1. simpl in I1.
+  destruct r1; try exact I1.
+  pose proof (IH s1 I1) as I2.
+  destruct (move_children ev s1 oldd newd cs) as [[s2 r2] d2]. exact I2.
+Qed.
+
+Lemma grpc_rename_inv : forall ev s oldp newp, Inv s -> Inv (st_of (grpc_rename ev s oldp newp)).
+Proof.
+  intros ev s oldp newp I. unfold grpc_rename.
+  destruct (in_scope oldp && in_scope newp) eqn:Esc; simpl; [|exact I].
+  apply andb_true_iff in Esc. destruct Esc as [Eso Esn].
+  pose proof (in_scope_nonroot oldp Eso) as Ho. pose proof (in_scope_nonroot newp Esn) as Hn.
+  destruct (HardLink.is_prefix oldp (HardLink.parent newp)); [exact I|].
+  destruct (find_entry ev s oldp) as [e|]; [|exact I].
+  destruct (negb (h_dir e)); [now apply move_self_inv'|].
+  assert (Hdir : Inv (st_of (if HardLink.path_eqb oldp newp then (s, OK, [])
+            else match filer_create ev s newp (strip_link e) false with
+                 | (s1, OK, d1) =>
+                     match move_children ev s1 oldp newp (list_children s1 oldp) with
+                     | (s2, OK, d2) =>
+                         match delete_entry ev s2 oldp false false false with
+                         | (s3, r3, d3) => (s3, r3, d1 ++ d2 ++ d3)
+                         end
+                     | (s2, r2, d2) => (s2, r2, d1 ++ d2)
+                     end
+                 | (s1, r, d1) => (s1, r, d1)
+                 end))).
+  { destruct (HardLink.path_eqb oldp newp); [exact I|].
+    pose proof (filer_create_plain_inv' [] ev s newp (strip_link e) false I Hn eq_refl) as I1.
+    destruct (filer_create ev s newp (strip_link e) false) as [[s1 r1] d1]. unfold st_of in I1. simpl in I1.
+    destruct r1; try exact I1.
+    pose proof (move_children_inv ev oldp newp (list_children s1 oldp) s1 I1) as I2.
+    destruct (move_children ev s1 oldp newp (list_children s1 oldp)) as [[s2 r2] d2]. unfold st_of in I2. simpl in I2.
+    destruct r2; try exact I2.
+    pose proof (delete_entry_inv ev s2 oldp false false false I2 Ho) as I3.
+    destruct (delete_entry ev s2 oldp false false false) as [[s3 r3] d3]. exact I3. }
+  destruct (list_children s oldp) as [|c cs]; [exact Hdir|].
+  destruct newp as [|a [|b [|c' r]]]; try exact Hdir. exact I.
+Qed.
+
+Lemma step_inv_ok : forall ev s o, Inv s -> c21_op_ok ev s o = true -> Inv (st_of (step ev s o)).
+Proof.
+  intros ev s o I Hok.
+  destruct o as [p e x|p e|p cs|p rec ign data|oldp newp|oldp newp fresh|p cs mt via|p];
+    try (apply (step_good ev s _ I); unfold c21_quiet; rewrite Hok; reflexivity).
+  simpl. now apply grpc_rename_inv.
+Qed.
+
+Lemma final_inv_ok : forall ev ops s, Inv s -> c21_hist_ok ev s ops = true -> Inv (final ev s ops).
+Proof.
+  induction ops as [|o ops IH]; intros s I H; [exact I|].
+  simpl in H. apply andb_true_iff in H. destruct H as [Hq Hr].
+  simpl. apply IH; [|assumption]. now apply step_inv_ok.
+Qed.
+
+(* FULL: after every history that respects the client assumptions, the counter of every record is
+   the number of names carrying its id ... *)
+Theorem c21_counter_full : forall ev ops, c21_hist_ok ev empty_st ops = true ->
+  let s := final ev empty_st ops in
+  forall X b, kv_get s X = Some b -> h_cnt b = Z.of_nat (count_names s X).
+Proof.
+  intros ev ops H s X b Hb.
+  pose proof (final_inv_ok ev ops empty_st Inv_empty H) as I. fold s in I.
+  destruct (ig_cnt _ _ I X b Hb) as [_ [_ [C _]]]. simpl in C. rewrite Nat.add_0_r in C. exact C.
+Qed.
+
+(* ... and a record exists exactly as long as some name carries its id *)
+Theorem c21_gone_iff_last_full : forall ev ops, c21_hist_ok ev empty_st ops = true ->
+  let s := final ev empty_st ops in
+  forall X, X <> 0%N -> (kv_get s X <> None <-> (0 < count_names s X)%nat).
+Proof.
+  intros ev ops H s X HX.
+  pose proof (final_inv_ok ev ops empty_st Inv_empty H) as I. fold s in I. split.
+  - intro Hk. destruct (kv_get s X) as [b|] eqn:E; [|congruence].
+    destruct (ig_cnt _ _ I X b E) as [_ [_ [_ D]]]. simpl in D. rewrite Nat.add_0_r in D. exact D.
+  - intro Hc. apply (ig_pres _ _ I X HX). simpl. rewrite Nat.add_0_r. exact Hc.
+Qed.
+
+(* names with the same link id show the same entry, after every such history *)
+Theorem c21_shared_view_full : forall ev ops, c21_hist_ok ev empty_st ops = true ->
+  let s := final ev empty_st ops in
+  forall p1 e1 p2 e2, nfind s p1 = Some e1 -> nfind s p2 = Some e2 ->
+    h_hl e1 <> 0%N -> h_hl e1 = h_hl e2 -> model_view s p1 = model_view s p2.
+Proof.
+  intros ev ops H s p1 e1 p2 e2 F1 F2 Hn He.
+  pose proof (final_inv_ok ev ops empty_st Inv_empty H) as I. fold s in I.
+  destruct (linked_has_record _ _ _ _ I F1 Hn) as [b Hb].
+  unfold model_view, w_find. rewrite F1, F2.
+  rewrite (view_linked s e1 b Hn Hb). rewrite (view_linked s e2 b); [reflexivity|congruence|congruence].
+Qed.
+
 (* ================= refutations of the full statements ================= *)
 Local Open Scope N_scope.
 Definition w_ev : env := mk_env [] 0.
@@ -623,10 +736,10 @@ Definition pd : path := ["d"%string].
 (* k = 0: rename of a linked name *)
 Definition w_rename : list op :=
   [Create pa (w_file 1 [w_c 1 0; w_c 2 1]) false; Link pa pb 1; Rename pa pc; Write pb [w_c 5 0] 9 true].
-(* k = 1: a plain upload over a linked name, then the other name is unlinked *)
+(* (repaired) a plain upload over a linked name, then the other name is unlinked *)
 Definition w_overwrite : list op :=
   [Create pa (w_file 1 [w_c 1 0; w_c 2 1]) false; Link pa pb 1; Create pb (w_file 3 [w_c 7 0]) false; Unlink pa].
-(* k = 2: recursive delete without data deletion, then the other name is unlinked *)
+(* (repaired) recursive delete without data deletion, then the other name is unlinked *)
 Definition w_rec_nodata : list op :=
   [Create (pd ++ pa) (w_file 1 [w_c 1 0; w_c 2 1]) false; Link (pd ++ pa) pb 1; Delete pd true false false; Unlink pb].
 
@@ -649,34 +762,23 @@ Proof.
   - vm_compute. eexists. eexists. repeat split. discriminate.
 Qed.
 
-Theorem c21_counter_refuted :
-  exists ev ops, c21_hist_ok ev empty_st ops = true /\
-    exists X b, kv_get (final ev empty_st ops) X = Some b /\
-                h_cnt b <> Z.of_nat (count_names (final ev empty_st ops) X).
+(* the two repaired defects: a plain upload over a linked name and a recursive delete without data
+   deletion now keep the counters right — both former witnesses are inside the hypothesis of the
+   partial theorems, satisfy the property at every step and end without any record *)
+Theorem c21_repaired_witnesses :
+  c21_hist_quiet w_ev empty_st w_overwrite = true /\ kvs (final w_ev empty_st w_overwrite) = [] /\
+  (exists b, kv_get (final w_ev empty_st (firstn 3 w_overwrite)) 1 = Some b /\ h_cnt b = 1%Z) /\
+  c21_hist_quiet w_ev empty_st w_rec_nodata = true /\ final w_ev empty_st w_rec_nodata = empty_st.
 Proof.
-  exists w_ev, (firstn 3 w_overwrite). split; [vm_compute; reflexivity|].
-  exists 1. vm_compute. eexists. split; [reflexivity|]. discriminate.
+  split; [vm_compute; reflexivity|]. split; [vm_compute; reflexivity|].
+  split; [vm_compute; eexists; split; reflexivity|]. split; vm_compute; reflexivity.
 Qed.
 
-Theorem c21_gone_iff_last_refuted :
-  exists ev ops, c21_hist_ok ev empty_st ops = true /\
-    exists X, kv_get (final ev empty_st ops) X <> None /\ count_names (final ev empty_st ops) X = 0%nat.
-Proof.
-  exists w_ev, w_overwrite. split; [vm_compute; reflexivity|].
-  exists 1. vm_compute. split; [discriminate|reflexivity].
-Qed.
-
-Theorem c21_recursive_nodata_refuted :
-  c21_hist_ok w_ev empty_st w_rec_nodata = true /\
-  exists X, kv_get (final w_ev empty_st w_rec_nodata) X <> None /\
-            count_names (final w_ev empty_st w_rec_nodata) X = 0%nat.
-Proof. split; [vm_compute; reflexivity|]. exists 1. vm_compute. split; [discriminate|reflexivity]. Qed.
-
-(* the triggers name the steps that fail *)
+(* the trigger names the step that fails *)
 Theorem c21_witness_triggers :
   c21_first_failure w_ev empty_st w_rename = Some (Some 0) /\
-  c21_first_failure w_ev empty_st w_overwrite = Some (Some 1) /\
-  c21_first_failure w_ev empty_st w_rec_nodata = Some (Some 2).
+  c21_first_failure w_ev empty_st w_overwrite = None /\
+  c21_first_failure w_ev empty_st w_rec_nodata = None.
 Proof. repeat split; vm_compute; reflexivity. Qed.
 
 (* outside the observation points of the property (FindEntry, the KV record): a directory listing
